@@ -248,6 +248,8 @@ def run(cx):
         ob.require(owner_path(prog, c.body) == "<anemo::endpoint::Connecting as core::future::future::Future>::poll", "Connection::new/caller",
                    f"Connection::new called from {c.body.path}", c.body.path)
         t = arg_origin(c, 1)
+        if c.body.kind == "Closure":
+            t = expand_upvars(prog, c.body, t)          # `let origin = self.origin; .. .map(|h| .. Connection::new(h, origin))`
         ob.require(mentions_field(t, "origin") and (mentions_upvar(t, "self") or mentions_param(t, "self")), "Connection::new/origin-arg",
                    f"Connection::new origin argument is {show(t)}", c.body.path)
         kb = cx.body("anemo::connection::Connection::new")
